@@ -233,6 +233,30 @@ impl C20 {
         obs.nontrivial(crate::rng::fnv64(format!("met{}", case.index).as_bytes()));
     }
 
+    /// the sun at and near the zenith: every day of the year x latitudes -30..30 in steps of 0.1 degree at solar noon,
+    /// where the altitude is 90 - |latitude - declination| (the place where sin(alt) is within an ulp of 1)
+    fn noon_altitude(&self, obs: &mut Obs) {
+        for n in 1..=365u32 {
+            let d = climate::solar::declination_from_nday(n);
+            for li in -300..=300 {
+                let lat = li as f32 / 10.0;
+                obs.eval();
+                let want = 90.0 - (lat as f64 - d as f64).abs();
+                for w in [0.0f32, 0.25, -0.25] {
+                    let got = climate::solar::altitude_sol_from_data(d, w, lat) as f64;
+                    // a quarter of a degree of hour angle lowers the sun by at most 0.25 degree
+                    let ok = if w == 0.0 { (got - want).abs() <= 0.05 } else { got <= want + 0.05 && got >= want - 0.3 };
+                    if !ok {
+                        obs.violation("sun-altitude-near-zenith", format!("day {} latitude {} hour angle {}: altitude {} but the sun stands at {:.3} degrees at noon (declination {})", n, lat, w, got, want, d), json!({"nday": n, "latitude": lat, "hourangle": w}));
+                        return;
+                    }
+                }
+                obs.count("noon_altitudes_checked");
+            }
+        }
+        obs.nontrivial(crate::rng::fnv64(b"noon-altitude"));
+    }
+
     fn radiation_random(&self, case: &Case, obs: &mut Obs) {
         let mut rng = case.rng();
         for _ in 0..3000 {
@@ -412,7 +436,7 @@ impl Property for C20 {
         "C20"
     }
     fn rule(&self) -> String {
-        "all 365 (month, day) pairs against the harness's month table; sun_position on a latitude [-66,66] x declination [-23.45,23.45] x hour-angle (-180,180) grid (quick 1 degree, thorough 0.5 degrees) compared as a direction vector (great-circle error <= 0.1 degree) with spherical astronomy whenever the true altitude exceeds 0.5 degrees; angle_sol_surf and sunsurface_angles().angle against the angle between that vector and WallGeom::normal() for random tilts/azimuths; ray_dir_to_sun; radiation identities over all 8760 hours of zonaD3.met (horizontal surface = input for altitude >= 6, tilt 180 = albedo x global and no beam, beam >= 0) and random inputs; tables: 32 zones x 9 orientations x 12 months and 14 July rows present, shaped and non-negative; for D3: July rows equal the weather file's rows, monthly table equals the radiation model summed per month to +-0.0056; non-trivial = distinct date / latitude row / hour slice / zone".into()
+        "all 365 (month, day) pairs against the harness's month table; sun_position on a latitude [-66,66] x declination [-23.45,23.45] x hour-angle (-180,180) grid (quick 1 degree, thorough 0.5 degrees) compared as a direction vector (great-circle error <= 0.1 degree) with spherical astronomy whenever the true altitude exceeds 0.5 degrees; the noon altitude for every day x latitude -30..30 in 0.1 degree steps (sun at and near the zenith); angle_sol_surf and sunsurface_angles().angle against the angle between that vector and WallGeom::normal() for random tilts/azimuths; ray_dir_to_sun; radiation identities over all 8760 hours of zonaD3.met (horizontal surface = input for altitude >= 6, tilt 180 = albedo x global and no beam, beam >= 0) and random inputs; tables: 32 zones x 9 orientations x 12 months and 14 July rows present, shaped and non-negative; for D3: July rows equal the weather file's rows, monthly table equals the radiation model summed per month to +-0.0056; non-trivial = distinct date / latitude row / hour slice / zone".into()
     }
     fn assumptions(&self) -> Vec<String> {
         vec![
@@ -424,6 +448,7 @@ impl Property for C20 {
         let step = tier.pick(10, 5) as f64 / 10.0;
         vec![
             ("calendar".into(), 1),
+            ("noon-altitude".into(), 1),
             ("sun-grid".into(), (132.0 / step) as u64 + 1),
             ("surface-angles".into(), tier.pick(200, 3000)),
             ("radiation-met".into(), 73),
@@ -434,6 +459,7 @@ impl Property for C20 {
     fn required(&self, tier: Tier) -> Vec<(String, u64)> {
         vec![
             ("dates_checked".into(), 365),
+            ("noon_altitudes_checked".into(), 219_000),
             ("sun_positions_checked".into(), tier.pick(500_000, 4_000_000)),
             ("surface_angles_checked".into(), 100_000),
             ("hours_with_sun_above_6_degrees".into(), 3900),
@@ -447,6 +473,7 @@ impl Property for C20 {
     fn run_case(&self, case: &Case, obs: &mut Obs) {
         match case.kind {
             "calendar" => self.calendar(obs),
+            "noon-altitude" => self.noon_altitude(obs),
             "sun-grid" => self.sun_grid(case, obs, case.tier.pick(10, 5) as f64 / 10.0),
             "surface-angles" => self.surface_angles(case, obs),
             "radiation-met" => self.radiation_met(case, obs),
